@@ -59,7 +59,13 @@ def _sbounds(rng):
     return [hi - 10 ** rng.uniform(-2, 2), hi]
 
 
-def _prior_spec(rng, bounds=None, signed=False):
+def _prior_spec(rng, bounds=None, signed=False, plugin=False):
+    if plugin and not signed and rng.random() < 0.12:
+        # a plug-in prior written against the public Prior base class
+        # (uniform in ln x; its transform is neither of the built-in two)
+        lo = rng.uniform(-3, 2)
+        return {'kind': 'LnUniform',
+                'args': {'bounds': [lo, lo + rng.uniform(0.1, 3)]}}
     if signed:
         if rng.random() < 0.6:
             return {'kind': 'Uniform', 'args': {'bounds': _sbounds(rng)}}
@@ -165,7 +171,8 @@ def gen_ops(rng, cfg, nops):
                 ops.append([k, n, [f0, rng.uniform(1.1, 10)]])
         elif k == 'set_prior':
             n = rng.choice(names)
-            ops.append([k, n, _prior_spec(rng, signed=n in signed)])
+            ops.append([k, n, _prior_spec(rng, signed=n in signed,
+                                          plugin=True)])
         elif k in ('enable_derived', 'disable_derived'):
             ops.append([k, rng.choice(dnames)])
         elif k == 'compile':
@@ -431,7 +438,7 @@ def execute(case, keep_text=False):
         bad = False
         exp = ref.compiled
         names = real_call(step, 'fit_names', lambda: list(opt.fit_names))
-        exp_names = [('log_' + c['name']) if c['is_log'] else c['name']
+        exp_names = [('log_' + c['name']) if c['is_log'] is True else c['name']
                      for c in exp]
         if names != exp_names:
             viol('views', 'fit_names', 'got %s want %s' % (names, exp_names),
@@ -440,7 +447,7 @@ def execute(case, keep_text=False):
         vals = real_call(step, 'fit_values', lambda: list(opt.fit_values))
         for c, v in zip(exp, vals):
             want = ref.values[c['name']]
-            want = math.log10(want) if c['is_log'] else want
+            want = math.log10(want) if c['is_log'] is True else want
             if not _close(v, want):
                 kind = 'user' if c['user'] else 'default'
                 viol('views', 'fit_values:%s-prior' % kind,
@@ -471,7 +478,7 @@ def execute(case, keep_text=False):
         fb = real_call(step, 'fit_boundaries', lambda: list(opt.fit_boundaries))
         for c, b in zip(exp, fb):
             lo, hi = c['bounds']
-            if c['is_log']:
+            if c['is_log'] is True:
                 lo, hi = math.log10(lo), math.log10(hi)
             ok = _close(b[0], lo) and _close(b[1], hi)
             if not ok and c['user']:
@@ -543,9 +550,15 @@ def execute(case, keep_text=False):
                 viol('history-dependence', k, 'after history %s, fresh twin %s'
                      % (a, b), step)
                 raise Stop()
-        # H2: writing the reported values back changes nothing
-        real_call(step, 'update_model(fit_values)', opt.update_model, vals)
-        check_values(step, 'writeback', rel=1e-12)
+        # H2: writing the reported values back changes nothing (the relation
+        # presupposes the two built-in spaces: a plug-in prior reports the
+        # linear value under a linear name and transforms it on the way in)
+        if any(c['is_log'] == 'ln' for c in exp):
+            out.bump('probes', 'plugin_prior_compiled')
+        else:
+            real_call(step, 'update_model(fit_values)', opt.update_model,
+                      vals)
+            check_values(step, 'writeback', rel=1e-12)
         for n in ref.order:      # re-synchronise exactly
             _set(ref, n, model, obs, ref.values[n])
             ref.values[n] = _get(ref, n, model, obs)
